@@ -19,6 +19,12 @@ mod parse;
 #[cfg(feature = "full")]
 mod agentl1;
 #[cfg(feature = "full")]
+mod c04;
+#[cfg(feature = "full")]
+mod c11;
+#[cfg(feature = "full")]
+mod e2e;
+#[cfg(feature = "full")]
 mod junos;
 #[cfg(feature = "full")]
 mod peers;
@@ -26,6 +32,8 @@ mod peers;
 mod realwire;
 #[cfg(feature = "full")]
 mod realwire2;
+#[cfg(feature = "full")]
+mod secrets;
 #[cfg(feature = "full")]
 mod trace;
 
@@ -50,6 +58,12 @@ fn main() {
         #[cfg(feature = "full")]
         "c03-l1" => agentl1::run_histories(&cfg, agentl1::Prop::C03),
         #[cfg(feature = "full")]
+        "c04" => c04::run(&cfg),
+        #[cfg(feature = "full")]
+        "c11" => c11::run_c11(&cfg),
+        #[cfg(feature = "full")]
+        "c17" => c11::run_c17(&cfg),
+        #[cfg(feature = "full")]
         "c16" => agentl1::run_c16(&cfg),
         #[cfg(feature = "full")]
         "worker" => realwire::worker_main(&args[2..]),
@@ -59,6 +73,12 @@ fn main() {
         "c06" => realwire::run_c06(&cfg),
         #[cfg(feature = "full")]
         "c07" => realwire::run_c07(&cfg),
+        #[cfg(feature = "full")]
+        "c12b" => realwire::run_c12b(&cfg),
+        #[cfg(feature = "full")]
+        "c18b" => realwire::run_c18b(&cfg),
+        #[cfg(feature = "full")]
+        "c20-lib" => realwire::run_c20_lib(&cfg),
         "c13" => parse::run_c13(&cfg),
         "c14" => parse::run_c14(&cfg),
         _ => {
